@@ -1096,6 +1096,9 @@ def c18(run):
     run.rec_leg("asm_rt", ["rt", "fmt=txt"], verdict=["panic", "rt-txt", "unknown-event"])
     run.mc_leg("mc_txtformat", "MC_TxtFormat", "MC_TxtFormat.cfg", workers=8, timeout=3000)
     run.rec_leg("fmt", ["fmt"], spec="TV_Fmt", cfg="TV_Fmt.cfg", verdict=["panic", "txt-roundtrip", "unknown-event"])
+    # RP: the text of every object of MC_TxtFormat's universe through the real reader and back through the real writer
+    run.rp_rec_leg("rp_txt", "MC_TxtFormat", "MC_TxtFormatRP.cfg", "txt", "MC_TxtFormat_ops.ndjson", spec="TV_Fmt", cfg="TV_Fmt.cfg",
+                   verdict=["panic", "txt-accept", "txt-obj", "txt-rewritten", "unknown-event"], workers=8)
     return run.finish(
         rule="as C17 through TextFormat; the single-program leg uses sources with quotes, backslashes, tabs, CRLF, control "
              "and non-ASCII characters, ' | ' inside comments and strings, '=' and '#' at line starts, empty and "
